@@ -540,6 +540,8 @@ Definition reads (txt : bytes) (v : tjson) : Prop :=
   forall f d rest, tdepth v <= d -> hd_ok num_term rest -> fv f (txt ++ rest) ->
     parse_value f d (txt ++ rest) = Some (v, rest).
 
+Ltac lens := unfold fv, fl in *; repeat (progress (rewrite ?app_length in *; cbn [length] in * )); lia.
+
 Lemma sep_concat_cons2 sep (a b : bytes) m : sep_concat sep (a :: b :: m) = a ++ sep ++ sep_concat sep (b :: m).
 Proof. reflexivity. Qed.
 
@@ -560,7 +562,7 @@ Proof.
   - cbn [map] in *. rewrite sep_concat_cons2 in *. rewrite <- !app_assoc in *. cbn [app] in *.
     rewrite (Rv f d _ Dv).
     + cbn [skip_ws is_ws]. rewrite pe_skip by assumption. rewrite (IH ltac:(congruence) Rl f d rest Dl); [reflexivity|].
-      unfold fl in *. rewrite !app_length in *. cbn [length] in *. rewrite !app_length in *. cbn [length] in *. lia.
+      lens.
     + exact eq_refl.
     + unfold fv, fl in *. lia.
 Qed.
@@ -601,12 +603,242 @@ Proof.
     rewrite pm_step by assumption. rewrite (Rv f d (endw ++ x7d :: rest) Dv).
     + rewrite skip_ws_app by assumption. reflexivity.
     + apply hd_term_ws; [assumption | reflexivity].
-    + unfold fv, fl in *. rewrite !app_length in *. cbn [length] in *. rewrite !app_length in *. lia.
+    + lens.
   - cbn [map] in *. rewrite sep_concat_cons2 in *. unfold member_text at 1. unfold member_text at 1 in F. cbn [fst snd] in *.
     rewrite <- !app_assoc in *. cbn [app] in *. rewrite <- !app_assoc in *.
     rewrite pm_step by assumption. rewrite (Rv f d _ Dv).
     + cbn [skip_ws is_ws]. rewrite pm_skip by assumption. rewrite (IH ltac:(congruence) Rl f d rest Dl); [reflexivity|].
-      unfold fl in *. rewrite !app_length in *. cbn [length] in *. rewrite !app_length in *. cbn [length] in *. lia.
+      lens.
     + exact eq_refl.
-    + unfold fv, fl in *. rewrite !app_length in *. cbn [length] in *. rewrite !app_length in *. cbn [length] in *. lia.
+    + lens.
+Qed.
+
+(* scalars *)
+Lemma fv_S f s : fv f s -> exists f', f = S f'.
+Proof. unfold fv. destruct f; [lia | eauto]. Qed.
+
+Lemma reads_null : reads (B "null") TNull.
+Proof. intros f d rest _ _ F. apply fv_S in F as [f' ->]. reflexivity. Qed.
+Lemma reads_true : reads (B "true") TTrue.
+Proof. intros f d rest _ _ F. apply fv_S in F as [f' ->]. reflexivity. Qed.
+Lemma reads_false : reads (B "false") TFalse.
+Proof. intros f d rest _ _ F. apply fv_S in F as [f' ->]. reflexivity. Qed.
+
+Lemma strip_prefix_app p rest : strip_prefix p (p ++ rest) = Some rest.
+Proof.
+  induction p as [|c p IH]; [destruct rest; reflexivity|]. cbn [app]. rewrite strip_prefix_cons.
+  replace (Byte.eqb c c) with true; [exact IH|]. symmetry. apply Byte.byte_dec_lb. reflexivity.
+Qed.
+
+Lemma digit_not_special c : is_digit c = true \/ c = x2d -> special c = false.
+Proof. intros [H| ->]; [|reflexivity]. destruct c; try discriminate; reflexivity. Qed.
+
+Lemma reads_num lit : num_ok lit -> reads lit (TNum lit).
+Proof.
+  intros N f d rest _ H F. apply fv_S in F as [f' ->].
+  pose proof (scan_number_lit_app lit rest N H) as S.
+  destruct (lit_first lit (num_ok_lit_ok lit N)) as (c & r & -> & Hc). cbn [app] in *.
+  rewrite pv_num, S; [reflexivity|]. apply digit_not_special. tauto.
+Qed.
+
+Lemma reads_str (esc : bool) b : body_ok (if esc then html_escape b else b) ->
+  reads (spell esc b) (TStr (if esc then html_escape b else b)).
+Proof.
+  intros K f d rest _ _ F. apply fv_S in F as [f' ->]. unfold spell. cbn [app]. rewrite <- app_assoc. cbn [app].
+  rewrite pv_str, (scan_string_body _ _ K). reflexivity.
+Qed.
+
+Lemma reads_empty_arr : reads (B "[]") (TArr []).
+Proof.
+  intros f d rest D _ F. apply fv_S in F as [f' ->]. apply tdepth_arr_le in D as [Z _].
+  change (B "[]" ++ rest) with (x5b :: x5d :: rest). rewrite pv_arr, Z. reflexivity.
+Qed.
+
+Lemma reads_empty_obj : reads (B "{}") (TObj []).
+Proof.
+  intros f d rest D _ F. apply fv_S in F as [f' ->]. apply tdepth_obj_le in D as [Z _].
+  change (B "{}" ++ rest) with (x7b :: x7d :: rest). rewrite pv_obj, Z. reflexivity.
+Qed.
+
+(* a non-empty array / object laid out with white space w1 after the opening bracket and after
+   every comma, w2 before the closing bracket, colw after the colon *)
+Lemma reads_arr (txt : tjson -> bytes) w1 w2 l : wsb w1 = true -> wsb w2 = true -> l <> [] ->
+  Forall (fun v => reads (txt v) v) l ->
+  reads (x5b :: w1 ++ sep_concat (x2c :: w1) (map txt l) ++ w2 ++ [x5d]) (TArr l).
+Proof.
+  intros W1 W2 Ne R f d rest D _ F. apply fv_S in F as F'. destruct F' as [f' ->]. apply tdepth_arr_le in D as [Z D].
+  cbn [app]. rewrite <- !app_assoc. cbn [app]. apply arr_open; [exact Z|]. rewrite pe_skip by assumption.
+  apply elems_read; try assumption. revert F. clear. cbn [app]. rewrite <- !app_assoc. cbn [app]. intro F. lens.
+Qed.
+
+Lemma reads_obj (txt : tjson -> bytes) colw w1 w2 ms : wsb colw = true -> wsb w1 = true -> wsb w2 = true -> ms <> [] ->
+  Forall (fun kv => body_ok (fst kv) /\ reads (txt (snd kv)) (snd kv)) ms ->
+  reads (x7b :: w1 ++ sep_concat (x2c :: w1) (map (member_text txt colw) ms) ++ w2 ++ [x7d]) (TObj ms).
+Proof.
+  intros Wc W1 W2 Ne R f d rest D _ F. apply fv_S in F as F'. destruct F' as [f' ->]. apply tdepth_obj_le in D as [Z D].
+  cbn [app]. rewrite <- !app_assoc. cbn [app]. apply obj_open; [exact Z|]. rewrite pm_skip by assumption.
+  apply members_read; try assumption. revert F. clear. cbn [app]. rewrite <- !app_assoc. cbn [app]. intro F. lens.
+Qed.
+
+(* ================= the compact printer ================= *)
+Theorem print_reads t : tok t -> reads (print false t) t.
+Proof.
+  induction t as [| | |lit|b|l IH|ms IH] using tjson_rect'; intro T.
+  - apply reads_null.
+  - apply reads_true.
+  - apply reads_false.
+  - apply reads_num, T.
+  - apply (reads_str false b), T.
+  - destruct l as [|v l]; [apply reads_empty_arr|]. apply tok_arr in T.
+    apply (reads_arr (print false) [] [] (v :: l)); try reflexivity; [congruence|].
+    rewrite Forall_forall in *. intros x Hx. apply (IH x Hx), T, Hx.
+  - destruct ms as [|kv ms]; [apply reads_empty_obj|]. apply tok_obj in T.
+    apply (reads_obj (print false) [] [] [] (kv :: ms)); try reflexivity; [congruence|].
+    rewrite Forall_forall in *. intros x Hx. destruct (T x Hx) as [T1 T2]. split; [exact T1 | apply (IH x Hx), T2].
+Qed.
+
+(* a whole text: white space, the text of the value, white space *)
+Lemma parse_of_reads txt t w1 w2 : reads txt t -> tdepth t <= max_depth -> wsb w1 = true -> wsb w2 = true ->
+  parse (w1 ++ txt ++ w2) = Some t.
+Proof.
+  intros R D W1 W2. unfold parse. rewrite pv_skip by assumption. rewrite (R _ max_depth w2 D).
+  - pose proof (skip_ws_app w2 [] W2) as E. rewrite app_nil_r in E. rewrite E. reflexivity.
+  - destruct w2 as [|c w]; [exact I|]. cbn [wsb forallb] in W2. apply andb_prop in W2 as [W2 _]. apply num_term_sep. auto.
+  - unfold parse_fuel. lens.
+Qed.
+
+Theorem parse_print_ws t w1 w2 : twf t -> wsb w1 = true -> wsb w2 = true ->
+  parse (w1 ++ print false t ++ w2) = Some t.
+Proof. intros [T D]. apply parse_of_reads; [apply print_reads, T | exact D]. Qed.
+
+(* what the library writes, it reads back as the same tree *)
+Theorem parse_print t : twf t -> parse (print false t) = Some t.
+Proof. intro H. pose proof (parse_print_ws t [] [] H eq_refl eq_refl) as P. now rewrite app_nil_r in P. Qed.
+
+(* ================= the escaping printer ================= *)
+From JP Require Import Strings Den ImplV5 Codec.
+
+Definition he_sp (c : byte) : bool := match c with x3c | x3e | x26 | xe2 => true | _ => false end.
+
+Lemma he_nosp c r : he_sp c = false -> html_escape (c :: r) = c :: html_escape r.
+Proof. destruct c; try reflexivity; discriminate. Qed.
+
+Lemma he_sp_cases c : he_sp c = true -> c = x3c \/ c = x3e \/ c = x26 \/ c = xe2.
+Proof. destruct c; try discriminate; tauto. Qed.
+
+Lemma esc1_nosp e : esc1 e = true -> he_sp e = false.
+Proof. destruct e; try discriminate; reflexivity. Qed.
+
+Lemma hex_nosp a : is_hex a = true -> he_sp a = false.
+Proof. destruct a; try discriminate; reflexivity. Qed.
+
+Lemma he_e2_other c1 c2 r : Byte.eqb c1 x80 && (Byte.eqb c2 xa8 || Byte.eqb c2 xa9) = false ->
+  html_escape (xe2 :: c1 :: c2 :: r) = xe2 :: html_escape (c1 :: c2 :: r).
+Proof. intro E. destruct c1; try reflexivity. destruct c2; try reflexivity; discriminate E. Qed.
+
+(* escaping keeps a body well-formed *)
+Theorem html_escape_body_ok b : body_ok b -> body_ok (html_escape b).
+Proof.
+  induction 1 as [|e r He _ IH|a b c d r Hh _ IH|c r Q Bs Ct Hr IH]; [constructor| | |].
+  - rewrite (he_nosp x5c) by reflexivity. rewrite he_nosp by (apply esc1_nosp, He). now apply BO_esc.
+  - unfold hex4b in Hh. apply andb_prop in Hh as [Hh Hd]. apply andb_prop in Hh as [Hh Hc]. apply andb_prop in Hh as [Ha Hb].
+    rewrite (he_nosp x5c), (he_nosp x75) by reflexivity. rewrite !he_nosp by (apply hex_nosp; assumption).
+    apply BO_u; [|exact IH]. unfold hex4b. now rewrite Ha, Hb, Hc, Hd.
+  - destruct (he_sp c) eqn:Sp; [|rewrite he_nosp by assumption; now apply BO_plain].
+    apply he_sp_cases in Sp as [->|[->|[->|->]]].
+    + change (body_ok (x5c :: x75 :: x30 :: x30 :: x33 :: x63 :: html_escape r)). now apply BO_u.
+    + change (body_ok (x5c :: x75 :: x30 :: x30 :: x33 :: x65 :: html_escape r)). now apply BO_u.
+    + change (body_ok (x5c :: x75 :: x30 :: x30 :: x32 :: x36 :: html_escape r)). now apply BO_u.
+    + destruct r as [|c1 [|c2 r']].
+      * apply BO_plain; try reflexivity. constructor.
+      * replace (html_escape [xe2; c1]) with (xe2 :: html_escape [c1]) by (destruct c1; reflexivity).
+        now apply BO_plain.
+      * destruct (Byte.eqb c1 x80 && (Byte.eqb c2 xa8 || Byte.eqb c2 xa9)) eqn:E;
+          [|rewrite he_e2_other by assumption; now apply BO_plain].
+        apply andb_prop in E as [E1 E2]. apply Byte.byte_dec_bl in E1. subst c1. apply body_ok_okb in IH.
+        apply orb_prop in E2 as [E2|E2]; apply Byte.byte_dec_bl in E2; subst c2.
+        { change (body_okb (html_escape r') = true) in IH. apply body_okb_iff in IH.
+          change (body_ok (x5c :: x75 :: x32 :: x30 :: x32 :: x38 :: html_escape r')). now apply BO_u. }
+        { change (body_okb (html_escape r') = true) in IH. apply body_okb_iff in IH.
+          change (body_ok (x5c :: x75 :: x32 :: x30 :: x32 :: x39 :: html_escape r')). now apply BO_u. }
+Qed.
+
+(* the escaped text of t is the plain text of the escaped tree *)
+Lemma print_true t : print true t = print false (escape_tree true t).
+Proof.
+  induction t as [| | |lit|b|l IH|ms IH] using tjson_rect'; try reflexivity.
+  - rewrite escape_tree_true. cbn [print]. do 3 f_equal. rewrite map_map. apply map_ext_in. intros x Hx.
+    rewrite Forall_forall in IH. apply (IH x Hx).
+  - rewrite escape_tree_true. cbn [print]. do 3 f_equal. rewrite map_map. apply map_ext_in. intros x Hx.
+    rewrite Forall_forall in IH. cbn [fst snd]. rewrite (IH x Hx). reflexivity.
+Qed.
+
+Lemma tok_escape t : tok t -> tok (escape_tree true t).
+Proof.
+  induction t as [| | |lit|b|l IH|ms IH] using tjson_rect'; intro T; try exact T.
+  - apply html_escape_body_ok, T.
+  - rewrite escape_tree_true. apply tok_arr in T. apply tok_arr. rewrite Forall_forall in *. intros y Hy.
+    apply in_map_iff in Hy as (x & <- & Hx). apply (IH x Hx), T, Hx.
+  - rewrite escape_tree_true. apply tok_obj in T. apply tok_obj. rewrite Forall_forall in *. intros y Hy.
+    apply in_map_iff in Hy as (x & <- & Hx). destruct (T x Hx) as [T1 T2]. cbn [fst snd].
+    split; [apply html_escape_body_ok, T1 | apply (IH x Hx), T2].
+Qed.
+
+Lemma tdepth_escape t : tdepth (escape_tree true t) = tdepth t.
+Proof.
+  induction t as [| | |lit|b|l IH|ms IH] using tjson_rect'; try reflexivity.
+  - rewrite escape_tree_true. cbn [tdepth]. f_equal. induction IH as [|x l Hx _ IHl]; [reflexivity|].
+    cbn [map fold_right]. now rewrite Hx, IHl.
+  - rewrite escape_tree_true. cbn [tdepth]. f_equal. induction IH as [|x l Hx _ IHl]; [reflexivity|].
+    cbn [map fold_right fst snd]. now rewrite Hx, IHl.
+Qed.
+
+Lemma twf_escape t : twf t -> twf (escape_tree true t).
+Proof. intros [T D]. split; [apply tok_escape, T | now rewrite tdepth_escape]. Qed.
+
+Theorem parse_print_esc t : twf t -> parse (print true t) = Some (escape_tree true t).
+Proof. intro H. rewrite print_true. apply parse_print, twf_escape, H. Qed.
+
+Theorem parse_print_any esc t : twf t -> parse (print esc t) = Some (escape_tree esc t).
+Proof. destruct esc; [apply parse_print_esc | apply parse_print]. Qed.
+
+(* ---- body_ok is Codec.sbody: both describe what scan_string accepts ---- *)
+Lemma high_plain c : (bn c <? 128) = false -> Byte.eqb c x22 = false /\ Byte.eqb c x5c = false /\ (bn c <? 32) = false.
+Proof. destruct c; try discriminate; repeat split. Qed.
+
+Theorem body_ok_sbody b : body_ok b <-> sbody b.
+Proof.
+  split.
+  - induction 1 as [|e r He _ IH|a b c d r Hh _ IH|c r Q Bs Ct _ IH].
+    + apply SB_nil.
+    + apply SB_esc; [exact He | exact IH].
+    + apply SB_u; [exact Hh | exact IH].
+    + destruct (bn c <? 128) eqn:A; [apply SB_ascii | apply SB_high]; assumption.
+  - induction 1; [constructor | apply BO_esc; assumption | apply BO_u; assumption | apply BO_plain; assumption |].
+    match goal with H : (bn ?c <? 128) = false |- _ => destruct (high_plain c H) as (A1 & A2 & A3) end.
+    apply BO_plain; assumption.
+Qed.
+
+Lemma tok_tsb t : tok t -> tsb t.
+Proof.
+  induction t as [| | |lit|b|l IH|ms IH] using tjson_rect'; intro T; try exact I.
+  - apply body_ok_sbody, T.
+  - apply tok_arr in T. apply tsb_arr. rewrite Forall_forall in *. intros x Hx. apply (IH x Hx), T, Hx.
+  - apply tok_obj in T. apply tsb_obj. rewrite Forall_forall in *. intros x Hx. destruct (T x Hx) as [T1 T2].
+    split; [apply body_ok_sbody, T1 | apply (IH x Hx), T2].
+Qed.
+
+(* with or without escaping, the text is read back as a tree with the same value *)
+Theorem parse_print_den esc t : twf t -> exists t', parse (print esc t) = Some t' /\ den t' = den t.
+Proof.
+  intro H. exists (escape_tree esc t). split; [apply parse_print_any, H|].
+  destruct esc; [|reflexivity]. apply escape_tree_den, tok_tsb, H.
+Qed.
+
+(* Text.scan_string reads exactly the Codec.sbody bodies *)
+Theorem scan_string_sbody s b rest : scan_string s = Some (b, rest) <-> sbody b /\ s = b ++ x22 :: rest.
+Proof.
+  split.
+  - intro H. apply (scan_string_inv (length s) s b rest (le_n _)) in H as [H1 H2]. split; [now apply body_ok_sbody | exact H2].
+  - intros [H1 ->]. apply scan_string_body, body_ok_sbody, H1.
 Qed.
